@@ -20,7 +20,7 @@ func Standalone() *kernel.Rig {
 		Property: "C17", Name: "R-cluster/proposer", Level: "exploration",
 		Rule:      "cluster runs as in C01; after every event all pairs of correct nodes at the same (height, round) are compared on the proposer they expect",
 		QuickRuns: 200, QuickBudget: 75 * time.Second, ThoroughRuns: 4000, ThoroughBudget: 20 * time.Minute,
-		RunsPerProcess: 40, RunTimeout: 180 * time.Second,
+		RunsPerProcess: 40, RunTimeout: 600 * time.Second,
 		Run: Run,
 	}
 }
